@@ -227,8 +227,176 @@ func TestC11_Real(t *testing.T) {
 func init() {
 	registerReplay("TestC11_Small", runC11)
 	registerReplay("TestC11_Real", runC11)
+	registerReplay("TestC11_CLIChainReal", runC11Chain)
 }
 
 func TestC11_Small(t *testing.T) {
 	RunRapid(t, Check[c11Case]{Prop: "C11", Test: "TestC11_Small", Gen: genC11, Run: runC11})
+}
+
+// ---------------------------------------------------------------------------
+// convert-to-raw as a chain of CLI runs over files (seeded change C11e): the
+// output may be a fresh path, an existing file, or the input itself (same
+// path, another spelling of it, a symlink or a hard link to it).
+
+type c11Chain struct {
+	Shape SmallShape `json:"shape"`
+	Real  string     `json:"real,omitempty"` // "" = small system; otherwise the mode of a real 2x3 / 3x2 system
+	Raw0  bool       `json:"raw0"`           // the first file is written in the raw format
+	Ops   []string   `json:"ops"`            // new | over-existing | in-place | respelled | symlink | hardlink
+}
+
+func genC11Chain(t *rapid.T) c11Chain {
+	c := c11Chain{Shape: genSmallShape(t), Raw0: rapid.Bool().Draw(t, "raw0")}
+	n := rapid.IntRange(1, 4).Draw(t, "nops")
+	for i := 0; i < n; i++ {
+		c.Ops = append(c.Ops, pick(t, "op", "new", "over-existing", "in-place", "in-place", "respelled", "symlink", "hardlink"))
+	}
+	return c
+}
+
+func runC11Chain(c c11Chain) Result {
+	class := "cli-chain/small"
+	var orig *prover.ProvingSystem
+	var err error
+	if c.Real != "" {
+		class = "cli-chain/real/" + c.Real
+		orig, err = getSystem(c.Real, int(c.Shape.Depth), int(c.Shape.Batch))
+	} else {
+		orig, err = newSmallSystem(c.Shape)
+	}
+	if err != nil {
+		return bad(class, "harness:setup", "%v", err)
+	}
+	want, err := canonOf(orig)
+	if err != nil {
+		return bad(class, "harness:canon", "%v", err)
+	}
+	dir, err := os.MkdirTemp(os.Getenv("VERIF_WORK"), "c11c-")
+	if err != nil {
+		return bad(class, "harness:tempdir", "%v", err)
+	}
+	defer os.RemoveAll(dir)
+	data, _, err := writeSystem(orig, c.Raw0)
+	if err != nil {
+		return bad(class, "ProvingSystem:write", "%v", err)
+	}
+	cur := filepath.Join(dir, "f0.ps")
+	if err := os.WriteFile(cur, data, 0o644); err != nil {
+		return bad(class, "harness:io", "%v", err)
+	}
+	reload := func(path string) string {
+		back, err := prover.ReadSystemFromFile(path)
+		if err != nil {
+			return "does not load: " + err.Error()
+		}
+		got, err := canonOf(back)
+		if err != nil {
+			return "reloaded system cannot be serialised: " + err.Error()
+		}
+		return want.diff(got)
+	}
+	tags := []string{}
+	for i, op := range c.Ops {
+		tags = append(tags, "chain-op:"+op)
+		out := filepath.Join(dir, fmt.Sprintf("f%d.ps", i+1))
+		alias := true
+		switch op {
+		case "new":
+			alias = false
+		case "over-existing":
+			alias = false
+			if err := os.WriteFile(out, bytes.Repeat([]byte{0xA5}, len(data)+4097), 0o644); err != nil {
+				return bad(class, "harness:io", "%v", err)
+			}
+		case "in-place":
+			out = cur
+		case "respelled":
+			out = filepath.Join(dir, ".", "sub", "..", filepath.Base(cur))
+			os.Mkdir(filepath.Join(dir, "sub"), 0o755)
+		case "symlink":
+			if err := os.Symlink(cur, out); err != nil {
+				return bad(class, "harness:io", "%v", err)
+			}
+		case "hardlink":
+			if err := os.Link(cur, out); err != nil {
+				return bad(class, "harness:io", "%v", err)
+			}
+		}
+		r := runCLI(600*time.Second, nil, nil, "convert-to-raw", "--input", cur, "--output", out)
+		if r.TimedOut {
+			return bad(class, "harness:timeout", "convert-to-raw timed out")
+		}
+		if r.ExitCode != 0 {
+			if !alias {
+				return bad(class, "convert-to-raw:"+op+":failed", "step %d of %v: exit %d on a loadable input: %s", i, c.Ops, r.ExitCode, tail(r.Stderr, 300))
+			}
+			// refusing to convert a file onto itself is allowed — destroying it is not
+			if d := reload(cur); d != "" {
+				return bad(class, "convert-to-raw:"+op+":input-destroyed", "step %d of %v: the command failed (exit %d: %s) and the proving system file it was given %s", i, c.Ops, r.ExitCode, tail(r.Stderr, 200), d)
+			}
+			tags = append(tags, "chain:alias-refused")
+			continue
+		}
+		if d := reload(out); d != "" {
+			return bad(class, "convert-to-raw:"+op+":output-differs", "step %d of %v: exit 0 and the output file %s", i, c.Ops, d)
+		}
+		if !alias {
+			if d := reload(cur); d != "" {
+				return bad(class, "convert-to-raw:"+op+":input-changed", "step %d of %v: the input file %s after the conversion", i, c.Ops, d)
+			}
+		}
+		// the output is in the raw format: it equals the raw serialisation of the original system
+		rawWant, _, err := writeSystem(orig, true)
+		if err == nil {
+			if got, rerr := os.ReadFile(out); rerr == nil && !bytes.Equal(got, rawWant) {
+				return bad(class, "convert-to-raw:"+op+":not-raw-encoding", "step %d of %v: the output (%d bytes) is not the raw serialisation of the system (%d bytes)", i, c.Ops, len(got), len(rawWant))
+			}
+		}
+		cur = out
+	}
+	if c.Real == "" {
+		back, err := prover.ReadSystemFromFile(cur)
+		if err != nil {
+			return bad(class, "convert-to-raw:final:reload-failed", "%v", err)
+		}
+		if err := smallProveVerify(c.Shape, back, orig, secFor(c.Shape, 1)); err != nil {
+			return bad(class, "convert-to-raw:converted-proves-original-verifies", "%v", err)
+		}
+		if err := smallProveVerify(c.Shape, orig, back, secFor(c.Shape, 2)); err != nil {
+			return bad(class, "convert-to-raw:original-proves-converted-verifies", "%v", err)
+		}
+	}
+	return ok(class, true).tag(tags...)
+}
+
+func init() { registerReplay("TestC11_CLIChain", runC11Chain) }
+
+func TestC11_CLIChain(t *testing.T) {
+	RunRapid(t, Check[c11Chain]{Prop: "C11", Test: "TestC11_CLIChain", Gen: genC11Chain, Run: runC11Chain})
+}
+
+// TestC11_CLIChainReal: the same chains on a real proving system (files of tens of MiB, beyond every buffer size).
+func TestC11_CLIChainReal(t *testing.T) {
+	col := newCol("C11", "TestC11_CLIChainReal")
+	defer col.Flush()
+	chains := [][]string{{"in-place", "in-place"}, {"new", "symlink"}, {"hardlink", "over-existing"}, {"respelled", "new"}}
+	modes := []struct {
+		mode         string
+		depth, batch int
+	}{{"deletion", 2, 3}, {"insertion", 3, 2}}
+	n := 1
+	if Thorough() {
+		n = len(chains) * 2
+	}
+	for k := 0; k < n; k++ {
+		i := (Shard() + k) % len(chains)
+		md := modes[(Shard()+k/len(chains))%len(modes)]
+		c := c11Chain{Shape: SmallShape{Depth: uint32(md.depth), Batch: uint32(md.batch)}, Real: md.mode, Raw0: k%2 == 1, Ops: chains[i]}
+		res := runC11Chain(c)
+		if msg := handle(col, "C11", "TestC11_CLIChainReal", c, res); msg != "" {
+			fmt.Printf("VIOLATION property=C11 replay=%s\n", replayPath("C11", "TestC11_CLIChainReal"))
+			t.Fatalf("%s", msg)
+		}
+	}
 }
